@@ -299,7 +299,49 @@ def filter_suite():
         one(expr, want)
 
 
+# reference meaning of the string functions (language reference), for replaying solver counterexamples on the real functions
+REF_FN = {
+    'contains': lambda d, a: (a[-1].upper() in (d if len(a) == 1 else a[0]).upper()) if len(a) in (1, 2) else ERR,
+    'startswith': lambda d, a: ((d if len(a) == 1 else a[0]).upper().startswith(a[-1].upper())) if len(a) in (1, 2) else ERR,
+    'anyof': lambda d, a: any(p.upper() in d.upper() for p in a),
+    'trim': lambda d, a: (d if not a else a[0]).strip() if len(a) <= 1 else ERR,
+    'uppercase': lambda d, a: a[0].upper() if len(a) == 1 else ERR,
+    'lowercase': lambda d, a: a[0].lower() if len(a) == 1 else ERR,
+    'strip_prefix': lambda d, a: (a[0][len(a[1]):] if a[0].upper().startswith(a[1].upper()) else a[0]) if len(a) == 2 else ERR,
+    'strip_suffix': lambda d, a: (a[0][:len(a[0]) - len(a[1])] if a[1] and a[0].upper().endswith(a[1].upper()) else a[0]) if len(a) == 2 else ERR,
+}
+ERR = ('err',)
+
+
+def replay_models():
+    """every refuted string-function obligation comes with the solver's model (description, arguments): call the real function on exactly those values"""
+    for h in O.hints:
+        meta = h.get('meta') or {}
+        model = h.get('model') or {}
+        if meta.get('replay') != 'string_function' or 'description' not in model:
+            continue
+        fn, n = meta['fn'], meta['arity']
+        desc = model['description']
+        args = [model.get('arg%d' % i) for i in range(n)]
+        if not isinstance(desc, str) or not all(isinstance(x, str) for x in args):
+            continue
+        O.case(('model', fn, desc, tuple(args)))
+        ctx = ep.TransactionContext(description=desc, amount=1.0)
+        try:
+            got = ('ok', getattr(ctx, '_fn_' + fn)(*args))
+        except ep.ExpressionError:
+            got = ERR
+        except Exception as e:
+            got = ('exc', type(e).__name__)
+        want = REF_FN[fn](desc, args)
+        want = want if want is ERR else ('ok', want)
+        if got != want:
+            O.fail('C04.model_replay.%s' % fn, {'function': fn, 'description': desc, 'args': args, 'from_obligation': h.get('id')}, want, got,
+                   'TransactionContext(description)._fn_%s(*args) on the solver counterexample' % fn)
+
+
 def main():
+    replay_models()
     if O.witness:
         w = O.witness
         if 'rewritten' in w:
@@ -307,6 +349,10 @@ def main():
             a, b = truth(w['expr']), truth(w['rewritten'])
             if a != b:
                 O.fail('C04.law.witness', w, a, b)
+        elif 'function' in w:
+            O.hints = [{'meta': {'replay': 'string_function', 'fn': w['function'], 'arity': len(w['args'])}, 'id': w.get('from_obligation'),
+                        'model': dict([('description', w['description'])] + [('arg%d' % i, x) for i, x in enumerate(w['args'])])}]
+            replay_models()
         elif 'filter' in w:
             filter_suite()
         elif w['expr'] in MUST_FAIL:
